@@ -367,7 +367,8 @@ def _random_node(seed):
     desc, _, _, _ = project_description(p.desc, c)
     names = [(m, n) for m in desc for n in desc[m]]
     attrs = [(m, a) for m in shape for a in shape[m]]
-    hidden = [(m, x['cls_wire']) for m in shape for x in shape[m].values() if 'cls_wire' in x]
+    hidden = [(m, x['cls']['wire']) for m in shape for x in shape[m].values()
+              if 'wire' in (x.get('cls') or {}) and x['cls']['wire'] != x['wire']]
     for _ in range(rnd.randint(25, 50)):
         r = rnd.random()
         if r < 0.12:       # undescribed names
